@@ -2,11 +2,11 @@ package main
 
 import (
 	"bufio"
-	"math/big"
 	"encoding/hex"
 	"encoding/json"
 	"flag"
 	"fmt"
+	"math/big"
 	"os"
 	"os/exec"
 	"path/filepath"
@@ -19,12 +19,13 @@ import (
 )
 
 type HarnessSpec struct {
-	Dir     string
-	Name    string
-	Tweak   func(cfg *sym.HarnessCfg, tier string)
-	Reach   []string // labels that must be witnessed (non-vacuity)
-	Tiers   string   // "" = both, "thorough" = thorough only
-	Variant string
+	Dir      string
+	Name     string
+	Tweak    func(cfg *sym.HarnessCfg, tier string)
+	Reach    []string // labels that must be witnessed (non-vacuity)
+	Tiers    string   // "" = both, "thorough" = thorough only
+	Variant  string
+	AfterSat string
 }
 
 type PropSpec struct {
@@ -322,6 +323,7 @@ func cmdCheck(args []string) int {
 	os.RemoveAll(replayDir)
 
 	var results []*sym.HarnessResult
+	satSeen := map[string]int{}
 	violations := 0
 	var vioLines, knownLines, incon []string
 	replays := 0
@@ -343,6 +345,9 @@ func cmdCheck(args []string) int {
 		if *only != "" && hs.Name != *only {
 			continue
 		}
+		if hs.AfterSat != "" && satSeen[hs.AfterSat] == 0 {
+			continue
+		}
 		cfg := sym.DefaultCfg()
 		cfg.Name = hs.Name
 		cfg.Pkg = pkgTable[hs.Dir].path
@@ -360,6 +365,7 @@ func cmdCheck(args []string) int {
 			res.Name = hs.Name + "[" + hs.Variant + "]"
 		}
 		results = append(results, res)
+		satSeen[res.Name] += res.NSat
 		fmt.Printf("harness %-28s paths=%d instrs=%d trivial=%d unsat=%d sat=%d unknown=%d bound=%d queries=%d solver=%.1fs wall=%.1fs\n",
 			res.Name, res.Paths, res.Instrs, res.NTrivial, res.NUnsat, res.NSat, res.NUnknown, res.NBound, res.Queries, res.SolverTime.Seconds(), res.Wall.Seconds())
 		tot.paths += res.Paths
